@@ -60,6 +60,6 @@ PROP = {
              "storage orders in different arrays, or whole array_refs / owning copies), made equal by real assignments and then perturbed in single elements; all ordered pairs "
              "queried with ==, !=, <, <=, >, (>= for D=1) in random operand forms (view, view over pointer-to-const, array_ref, owning array); every answer is also compared "
              "inside the harness with the relation on plain nested values; distinct = different program text; non-trivial = at least one comparison and a view with >= 2 elements"),
-    "level_text": "Theorems (all D, all extents, any two well-formed layouts): the transcribed view == is true exactly when the extensions are equal (the library's comparison = list equality for well-formed views) and the elements at every index tuple are equal; != is its negation (also for array_ref's flat ==/!=); the transcribed lexicographical_compare (first-index pre-test, std::lexicographical_compare over begin()/end() rows, recursively) equals the lexicographic order on the nested-sequence denotation for zero-based operands of equal dimensionality; hence < is irreflexive, transitive, trichotomous, and for non-empty operands exactly one of a<b, a==b, b<a holds; <=, >, >= as coded are < or ==, swapped <. Tied to /repo by a differential run of every operator on generated view triples.",
+    "level_text": "Theorems (all D, all extents, any two well-formed layouts): the transcribed view == is true exactly when the extensions are equal (the library's comparison = list equality for well-formed views) and the elements at every index tuple are equal; != is its negation (also for array_ref's flat ==/!=); the transcribed lexicographical_compare (first-index pre-test, std::lexicographical_compare over begin()/end() rows, recursively) equals the lexicographic order on the nested-sequence denotation for zero-based operands of equal dimensionality; hence < is irreflexive, transitive, trichotomous, and for non-empty operands exactly one of a<b, a==b, b<a holds; <=, >, >= as coded are < or ==, swapped <. Tied to /repo by a differential run of every operator on generated view triples. The comparison operators of views (D>1, D=1, including the bodies of lexicographical_compare), element ranges and array_refs are regenerated from /repo's source on every run and proved equal to the model (GenTieStore.lean); code_eq_iff states eq_iff about the regenerated operator.",
     "level_note": "Trusted: Lean kernel (+propext, Classical.choice, Quot.sound), the transcription MultiModel/{Iter,Store}.lean validated by the correspondence run, the std algorithm contracts, Int for ptrdiff_t. Pointer type and constness of operands are exercised by the harness (pointer-to-const views, array_ref, owning arrays) but not distinguished in the model.",
 }
